@@ -83,6 +83,15 @@ def combos(chk, tier):
     out.append(("leeds-photo+nograin", [d / "photo.leeds"], ["leeds"], "", {}, G))
     out.append(("leeds-uclchem-mixture+nograin", [d / "photo.leeds", d / "ice-notherm.ucl"], ["leeds", "uclchem"], "", {}, E))
     out.append(("uclchem-leeds-mixture+rr07", [d / "ice-notherm.ucl", d / "photo.leeds"], ["uclchem", "leeds"], "rr07", {}, E))
+    (d / "late.krome").write_text("@format:idx,R,R,R,P,P,P,P,Tmin,Tmax,rate\n1,H,E,,H+,E,E,,NONE,NONE,1.0d-10*Te\n"
+                                  "@common:user_fsh,user_crate\n@var:ksca = 2.0d0*user_fsh\n"
+                                  "2,H+,E,,H,,,,NONE,NONE,3.0d-12*ksca*invTe\n3,H,H,,H2,,,,NONE,NONE,user_crate*1.0d-17\n")
+    (d / "first.krome").write_text("@format:idx,R,R,R,P,P,P,P,Tmin,Tmax,rate\n1,H,E,,H+,E,E,,NONE,NONE,1.0d-10*Te\n")
+    (d / "second.krome").write_text("@common:user_av2\n@var:kdust = 1.0d-3*user_av2\n@format:idx,R,R,R,P,P,P,P,Tmin,Tmax,rate\n"
+                                    "2,H,H,,H2,,,,NONE,NONE,kdust*1.0d-17\n")
+    KE = dict(elements=["E", "H"], pseudo_elements=["g"])
+    out.append(("krome-late-directives+nograin", [d / "late.krome"], ["krome"], "", {}, KE))
+    out.append(("krome-two-files+nograin", [d / "first.krome", d / "second.krome"], ["krome", "krome"], "", {}, KE))
     out.append(("uclchem-ice+rr07", [d / "ice-notherm.ucl"], ["uclchem"], "rr07", {}, E))
     out.append(("uclchem-ice+rr07x", [d / "ice.ucl"], ["uclchem"], "rr07x", {}, E))
     out.append(("uclchem-noH2+nograin", [d / "noh2.ucl"], ["uclchem"], "", {}, E))        # F17 witness
